@@ -27,7 +27,7 @@ def run(ctx):
         "explanation": "a state is a registration history (registries are append-only, so history = state); every legal history up to the "
                        "depth over the alphabet {register opcode set A {myop,myop2} / B {addbx: extends a built-in name} / C {add: prefix of "
                        "built-in names} (/ D 15-character name), register a rule set for (target, set, required flags in {none, a flag the "
-                       "CPU has, a flag it lacks}), register an overriding rule set for built-in addw} is applied in a fresh process, within the "
+                       "CPU has, a flag it lacks, two flags of which it lacks one, two flags it has}), register an overriding rule set for built-in addw} is applied in a fresh process, within the "
                        "rule-set capacity of each target; then extension-only, mixed and built-in probe programs are emulated and compiled.",
         "oracles": ["names resolve to the application's opcodes", "emulation calls the application's function and equals its reference",
                     "the latest registered rule set whose flags are satisfied is the one used, else no native code and emulation",
